@@ -104,6 +104,91 @@ async def scenario(events, yields):
     return failures[0] if failures else None
 
 
+async def actor_scenario(events, yields):
+    """The same oracle one level up: requests go through the real DataSourcingActor (its request channel and its _run
+    loop), for TWO components of the same category, two namespaces and two metrics.
+    events: ('msg', cid) | ('sub', namespace, metric_name, cid)."""
+    from frequenz.channels import Broadcast
+    from frequenz.client.microgrid import Component, ComponentCategory, ComponentMetricId, MeterData
+    from frequenz.quantities import Quantity
+    from frequenz.sdk._internal._channels import ChannelRegistry
+    from frequenz.sdk.microgrid import connection_manager
+    from frequenz.sdk.microgrid._data_sourcing import DataSourcingActor
+    from frequenz.sdk.microgrid._data_sourcing._component_metric_request import ComponentMetricRequest
+    from frequenz.sdk.timeseries import Sample
+    meters = (7, 8)
+    data_chan = {c: Broadcast(name=f"meter-{c}") for c in meters}
+    data_tx = {c: data_chan[c].new_sender() for c in meters}
+    data_rx = {c: data_chan[c].new_receiver(limit=100) for c in meters}
+
+    class Api:
+        async def components(self):
+            return [Component(c, ComponentCategory.METER) for c in meters]
+
+        async def meter_data(self, cid, maxsize=50):
+            return data_rx[cid]
+
+    class Conn:
+        api_client = Api()
+
+    registry = ChannelRegistry(name="explore-actor")
+    req_chan = Broadcast(name="requests")
+    req_tx = req_chan.new_sender()
+    metric_attr = {"ACTIVE_POWER": ("active_power", 100.0), "REACTIVE_POWER": ("reactive_power", 200.0)}
+    failures = []
+    with mock.patch.object(connection_manager, "get", lambda: Conn()):
+        actor = DataSourcingActor(req_chan.new_receiver(limit=500), registry)
+        actor.start()
+        await asyncio.sleep(0)
+        receivers = {}
+        n_sent = {c: 0 for c in meters}
+
+        def message(cid, k):
+            return MeterData(component_id=cid, timestamp=T0 + timedelta(seconds=k), active_power=100.0 * cid + k,
+                             active_power_per_phase=(0.0, 0.0, 0.0), reactive_power=200.0 * cid + k,
+                             reactive_power_per_phase=(0.0, 0.0, 0.0), current_per_phase=(0.0, 0.0, 0.0),
+                             voltage_per_phase=(0.0, 0.0, 0.0), frequency=50.0)
+        for ev in events:
+            if ev[0] == "msg":
+                cid = ev[1]
+                await data_tx[cid].send(message(cid, n_sent[cid]))
+                n_sent[cid] += 1
+                for _ in range(yields):
+                    await asyncio.sleep(0)
+            else:
+                _, ns, metric, cid = ev
+                req = ComponentMetricRequest(ns, cid, ComponentMetricId[metric], None)
+                name = req.get_channel_name()
+                if cid in meters and name not in receivers:
+                    rx = registry.get_or_create(Sample[Quantity], name).new_receiver(limit=100)
+                    receivers[name] = [rx, metric, cid, None]
+                await req_tx.send(req)
+                for _ in range(8):          # let the actor take the request off its channel and register it
+                    await asyncio.sleep(0)
+                if cid in meters and receivers[name][3] is None:
+                    receivers[name][3] = n_sent[cid]
+        for _ in range(60):
+            await asyncio.sleep(0)
+        for name, (rx, metric, cid, first) in receivers.items():
+            got = []
+            while True:
+                try:
+                    got.append(await asyncio.wait_for(rx.receive(), timeout=0.002))
+                except (asyncio.TimeoutError, Exception):  # pylint: disable=broad-except
+                    break
+            stamps = [int((s.timestamp - T0).total_seconds()) for s in got]
+            base = metric_attr[metric][1] * cid
+            vals_ok = all(s.value is not None and abs(s.value.base_value - (base + k)) < 1e-9 for s, k in zip(got, stamps))
+            must = list(range(first, n_sent[cid]))
+            tail = [k for k in stamps if k >= first]
+            if tail != must or stamps != sorted(set(stamps)) or not vals_ok:
+                failures.append(f"channel {name}: delivered timestamps {stamps} with values "
+                                f"{[None if s.value is None else s.value.base_value for s in got]}; messages {must} of component {cid} "
+                                f"({metric}, expected value {base} + k) were sent after the subscription")
+        await actor.stop()
+    return failures[0] if failures else None
+
+
 def run(req):
     tier = req.get("tier", "quick")
     seed = int(req.get("seed", 0))
@@ -151,11 +236,32 @@ def run(req):
                 break
         if failure or time.time() - t0 > budget:
             break
+    # through the real DataSourcingActor: two components of one category, two namespaces, two metrics
+    if not failure:
+        actor_subs = [("sub", "ns1", "ACTIVE_POWER", 7), ("sub", "ns1", "ACTIVE_POWER", 8), ("sub", "ns2", "ACTIVE_POWER", 7),
+                      ("sub", "ns1", "REACTIVE_POWER", 8), ("sub", "ns1", "ACTIVE_POWER", 7), ("sub", "ns1", "ACTIVE_POWER", 999)]
+        t1 = time.time()
+        arng = random.Random(seed + 1)
+        while time.time() - t1 < (6 if tier == "quick" else 60):
+            k = arng.randint(2, 5)
+            evs = list(arng.sample(actor_subs, k)) + [("msg", arng.choice([7, 8])) for _ in range(arng.randint(2, 5))]
+            arng.shuffle(evs)
+            yl = arng.choice([0, 1, 3, 20])
+            evaluations += 1
+            distinct.add((tuple(evs), yl, "actor"))
+            try:
+                f = asyncio.run(actor_scenario(evs, yl))
+            except Exception as e:  # pylint: disable=broad-except
+                f = f"actor scenario raised {type(e).__name__}: {e}"
+            if f:
+                failure = (f, evs, yl)
+                break
     out = {"status": "failed" if failure else "ok", "evaluations": evaluations, "distinct": len(distinct), "known": {},
            "samples": samples, "wall_s": round(time.time() - t0, 1),
            "rule": "all placements of 1-3 subscriptions (incl. a duplicate request, a second namespace, a second metric, an "
                    "unknown component id) among 1-3 data messages, with 0/1/3/20 event-loop iterations between consecutive "
-                   "events (shuffled, as many as fit the time budget); distinct = distinct (event sequence, yields) pairs"}
+                   "events (shuffled, as many as fit the time budget); then seeded random sequences through the real DataSourcingActor with "
+                   "two meters, two namespaces, two metrics; distinct = distinct (event sequence, yields) pairs"}
     if failure:
         out["failure"] = {"clause": "exactly once, in order, after subscription", "detail": failure[0]}
         out["inputs"] = {"events": failure[1], "yields": failure[2]}
